@@ -40,7 +40,7 @@ class Unsupported(Abort):
 # ----------------------------------------------------------------------------
 # path manager
 
-CONFIG = {'K': 1, 'query_timeout_ms': 10000, 'max_decisions': 4000, 'cutpoints': False}
+CONFIG = {'K': 1, 'query_timeout_ms': 10000, 'max_decisions': 4000, 'cutpoints': True, 'cut_hard': True}
 BUDGET = CONFIG  # old name
 
 STATS = {'paths': 0, 'checks': 0, 'sat': 0, 'unsat': 0, 'unknown': 0, 'solver_s': 0.0, 'decisions': 0}
@@ -68,6 +68,7 @@ class PathState:
         self.cutrec = []              # (fresh var, defining term) of every cut point, in execution order
         self.cutmemo = {}             # simplified defining term id -> (var, term)
         self.named = {}               # defining term id -> (var, term) for named intermediate characters
+        self.inputs = []              # symbolic input variables (characters / ints) created by the harness
         self.var_constraints = {}     # var id -> constraint over that single variable asserted on this path
 
     def add(self, c):
@@ -152,12 +153,43 @@ class PathState:
         return 'unknown', None
 
     def witness_model(self):
-        """model of the full path condition (hard constraints included) or None"""
+        """model of the full path condition (hard constraints included) or None.
+        When the solver cannot construct one directly (checksum chains), most input characters are fixed to the values of
+        a model of the relaxed condition and the remaining ones are solved for (a witness is only an example; any will do)."""
+        if self.hard:
+            self.solver.set('timeout', min(CONFIG['query_timeout_ms'], 3000))
         r = self.check(full=True)
+        self.solver.set('timeout', CONFIG['query_timeout_ms'])
         self.last_status = str(r)
-        if r != z3.sat:
+        if r == z3.sat:
+            return self.solver.model()
+        if r == z3.unsat or not self.hard or not self.inputs:
             return None
-        return self.solver.model()
+        import random
+        rnd = random.Random(len(self.decisions))
+        if self.check() != z3.sat:
+            return None
+        relaxed = self.solver.model()
+        n = len(self.inputs)
+        for attempt in range(10):
+            free = set(rnd.sample(range(n), min(n, 2 + attempt // 2)))
+            if attempt % 2 == 0:
+                free |= {n - 1, n - 2} & set(range(n))
+            fix = [v == relaxed.eval(v, model_completion=True) for i, v in enumerate(self.inputs) if i not in free]
+            r = self.solver.check(*(fix + self.hard))
+            STATS['checks'] += 1
+            if r == z3.sat:
+                self.last_status = 'sat'
+                return self.solver.model()
+            if attempt == 4:
+                # another relaxed model to start from
+                self.solver.push()
+                self.solver.add(z3.Or([v != relaxed.eval(v, model_completion=True) for v in self.inputs[:3]]))
+                if self.solver.check() == z3.sat:
+                    relaxed = self.solver.model()
+                self.solver.pop()
+        self.last_status = 'unknown'
+        return None
 
 
 CUR = None  # current PathState
@@ -424,6 +456,10 @@ class SInt:
 
     def __abs__(s):
         return SInt(z3.If(s.z < 0, -s.z, s.z))
+
+    def bit_length(s):
+        a = z3.If(s.z < 0, -s.z, s.z)
+        return SInt(z3.Sum([z3.If(a >= 2 ** k, 1, 0) for k in range(0, 130)]))
 
 
 def is_ascii(c):
@@ -764,7 +800,7 @@ class SStr:
         i = 0
         n = len(self.chars)
         while i < n:
-            if i + len(old) <= n and fork(SStr(self.chars[i:i + len(old)])._eqz(old)):
+            if i + len(old) <= n and xfork(SStr(self.chars[i:i + len(old)])._eqz(old), 'replace'):
                 out.extend(new.chars)
                 i += len(old)
             else:
@@ -936,7 +972,8 @@ def m_int(x=0, base=10):
     # not all digits: whitespace / sign / underscore forms of int(); explored by class-forking
     classes = []
     for k, c in enumerate(x.chars):
-        if fork(tcond(c, 'isspace')):
+        if fork(z3.And(tcond(c, 'isspace'), z3.Not(z3.And(c >= 0x1c, c <= 0x1f)) if not isinstance(c, int) else z3.BoolVal(not (0x1c <= c <= 0x1f)))):
+            # int() strips str.isspace() characters except the ASCII separators U+001C..U+001F (C isspace is used for ASCII)
             classes.append('s')
         elif fork(z3.Or(ceq(c, 43), ceq(c, 45))):
             classes.append('+' if fork(ceq(c, 43)) else '-')
@@ -1510,6 +1547,24 @@ class SPattern:
         if not isinstance(s, SStr):
             if isinstance(repl, SYM_TYPES):
                 raise Unsupported('re.sub with symbolic replacement')
+            if callable(repl) and isinstance(s, str):
+                # concrete subject, replacement function that may return symbolic strings
+                pieces = []
+                pos = 0
+                for k, m in enumerate(self.real.finditer(s)):
+                    if count and k >= count:
+                        break
+                    pieces.append(s[pos:m.start()])
+                    r = force(repl(m))
+                    if not isinstance(r, (str, SStr)):
+                        raise TypeError('expected str instance, %s found' % _pytype_name(r))
+                    pieces.append(r)
+                    pos = m.end()
+                pieces.append(s[pos:])
+                out = []
+                for q in pieces:
+                    out.extend(SStr.of(q).chars)
+                return mk(out)
             return self.real.sub(repl, s, count)
         if not isinstance(repl, str) or chr(92) in repl:
             raise Unsupported('re.sub with callable / back-reference replacement on symbolic')
@@ -2263,8 +2318,11 @@ def concretize(x, limit=48):
     for _ in range(limit):
         m = st.model
         if m is None:
-            if st.check() != z3.sat:
-                raise Unsupported('concretize: no model')
+            r = st.check()
+            if r == z3.unsat:
+                raise Infeasible('infeasible')
+            if r != z3.sat:
+                raise Unsupported('concretize: solver returned unknown')
             m = st.model = st.solver.model()
         val = model_val(m, x)
         if isinstance(x, SStr):
@@ -2717,6 +2775,7 @@ def symstr(n, name='s', lo=0, hi=0x10ffff):
     chars = [z3.Int('%s_%d' % (name, i)) for i in range(n)]
     for c in chars:
         constrain_var(c, z3.And(c >= lo, c <= hi))
+    CUR.inputs.extend(chars)
     return SStr(chars), chars
 
 
@@ -2734,6 +2793,7 @@ def symstr_alpha(n, alphabet, name='s'):
     cps = sorted(set(ord(a) for a in alphabet))
     for c in chars:
         constrain_var(c, in_ranges(c, _to_ranges(cps)))
+    CUR.inputs.extend(chars)
     return SStr(chars), chars
 
 
